@@ -45,6 +45,18 @@ class Opaque:
         return f"Opaque<{self.pytype.__name__}:{self.note}>"
 
 
+class FmtStr:
+    """f-string whose non-literal parts are symbolic integers (struct formats such as f">L10s{n}s")."""
+
+    __slots__ = ("parts",)
+
+    def __init__(self, parts):
+        self.parts = parts
+
+    def __repr__(self):
+        return f"FmtStr<{self.parts!r}>"
+
+
 class Ref:
     """Pointer to a heap cell (object, mutable sequence or dict)."""
 
